@@ -29,6 +29,7 @@ static inline int myth_spin_lock_body(myth_spinlock_t *lock) {
   while (!myth_spin_trylock_body(lock)) {
     MYTH_VERIF_SPIN(MYTH_VP_SPINLOCK, lock);
     failed++;
+    MYTH_VERIF_SPIN(MYTH_VP_SPIN_WAIT, lock);
   }
   return failed;
 }
@@ -39,9 +40,11 @@ static inline int myth_compare_and_set_int(volatile int * a, int oldv, int newv)
 
 static inline int myth_spin_trylock_body(myth_spinlock_t *lock) {
   if (myth_compare_and_set_int(&lock->locked, 0, 1)) {
+    MYTH_VERIF_POINT(MYTH_VP_SPIN_CAS, lock, 0, 1);
     myth_rwbarrier();
     return 1;
   } else {
+    MYTH_VERIF_POINT(MYTH_VP_SPIN_CAS, lock, 0, 0);
     return 0;
   }
 }
@@ -49,6 +52,7 @@ static inline int myth_spin_trylock_body(myth_spinlock_t *lock) {
 static inline int myth_spin_unlock_body(myth_spinlock_t *lock) {
   myth_rwbarrier();
   lock->locked = 0;
+  MYTH_VERIF_POINT(MYTH_VP_SPIN_UNLOCK, lock, 0, 0);
   return 0;
 }
 
